@@ -349,9 +349,11 @@ pub fn run(args: &Args, rec: &mut Recorder) {
             }
             Ok(Err(e)) => {
                 rec.bump("rejected");
-                if rec.hist.get("rejected").copied().unwrap_or(0) <= 2 {
-                    rec.notes.push(format!("rejected document: {e}"));
-                }
+                rec.violation(
+                    &format!("document generated from the reference grammar is rejected: {}", crate::gram::err_class(&e)),
+                    &e.to_string(),
+                    witness_text("C05", &r.text, ""),
+                );
                 return None;
             }
             Ok(Ok(v)) => v,
